@@ -301,6 +301,35 @@ def _job(arg):
     return None
 
 
+def _copy_job(arg):
+    """update(a); c = copy(); update(b) on the original, update(c) on the copy: each continues from the state at the
+    moment of copying, independently of the other."""
+    repo, alg, params, a_, b_, c_ = arg
+    w = World(repo)
+    o = w.new(H + alg, **dict(params))
+    if not isinstance(o, AObj):
+        return "new(): %r" % (o,)
+    if w.repo.find_method(o.mod, o.cnode, "copy") is None:
+        return "no copy()"
+    w.call(o, "update", a_)
+    cp = w.call(o, "copy")
+    if not isinstance(cp, AObj):
+        return "copy(): %r" % (cp,)
+    w.call(o, "update", b_)
+    w.call(cp, "update", c_)
+    bits = 256 if "256" in alg and not alg.startswith("SHA3") else 128
+    out = []
+    for obj, data in ((o, a_ + b_), (cp, a_ + c_)):
+        if alg.startswith("SHA3_"):
+            got, want = w.call(obj, "digest"), hashlib.new(alg.lower(), data).digest()
+        else:
+            got = w.call(obj, "read", 40)
+            want = hashlib.new("shake_%d" % bits, data).digest(40) if alg.startswith("SHAKE") else ref_cshake(data, 40, b"", params.get("custom") or b"", bits)
+        if got != want:
+            return "%s after copy(): %s, the standard gives %s for its own data" % ("the original" if obj is o else "the copy", got.hex()[:16] if isinstance(got, bytes) else got, want.hex()[:16])
+    return None
+
+
 def sponge_tables(check, ctx, rule="K-pw"):
     from ..par import pmap
     repo = ctx.repo
@@ -339,5 +368,18 @@ def sponge_tables(check, ctx, rule="K-pw"):
         check.ob(rule, "%s|sponge.stack.%s" % (rule, alg), not wrong, mod.path, 0,
                  extracted=("%d of %d rows differ: " % (len(wrong), n) + "; ".join(wrong[:2])) if wrong else "%d rows (messages around the rate boundaries, fed in pieces / partly through new(), output read in pieces, digest twice) equal the standard" % n,
                  expected="FIPS 202 / SP 800-185 / RFC 9861 value of the object for the data supplied, whatever the split")
+    # copies continue independently
+    cj = []
+    for alg, params in (("SHA3_224", {}), ("SHA3_256", {}), ("SHA3_384", {}), ("SHA3_512", {}), ("SHAKE128", {}), ("SHAKE256", {})):
+        for (la, lb, lc) in ((0, 3, 5), (100, 36, 37), (136, 0, 1)):
+            cj.append((repo, alg, params, _pat(la, 1), _pat(lb, 2), _pat(lc, 3)))
+    cerr = pmap(_copy_job, cj)
+    wrong = ["%s (%d + %d / %d bytes): %s" % (j[1], len(j[3]), len(j[4]), len(j[5]), e) for j, e in zip(cj, cerr) if e]
+    if wrong and all("undecided" in x or "no copy()" in x for x in wrong) and len(wrong) == len(cj):
+        raise AnalysisError("copy() rows of the Keccak family could not be interpreted: %s" % wrong[0])
+    check.ob(rule, "%s|sponge.stack.copy" % rule, not wrong, repo.module(H + "SHA3_256").path, 0,
+             extracted=("%d of %d rows differ: " % (len(wrong), len(cj)) + "; ".join(wrong[:2])) if wrong else "%d rows: original and copy continue independently from the state at the moment of copying" % len(cj),
+             expected="copy() returns an independent object with the same state")
+    total += len(cj)
     check.count("sponge_stack_rows", total)
     return total
